@@ -16,6 +16,7 @@ import (
 
 	am "github.com/hashicorp/go-argmapper"
 	"github.com/hashicorp/go-hclog"
+	"github.com/hashicorp/go-multierror"
 )
 
 type lab struct {
@@ -68,6 +69,7 @@ type scenario struct {
 	pops     []string
 	nextEid  int
 	errOwner map[int]int
+	errVals  map[int]error // the error values function bodies returned, by E0 id
 }
 
 // ---------------------------------------------------------------- building functions
@@ -196,7 +198,16 @@ func (f *fnSpec) runInner(got []reflect.Value) (outs []reflect.Value, nilPtr boo
 			for _, l := range f.Outs {
 				outs = append(outs, reflect.Zero(tyOf(l.Ty)))
 			}
-			return outs, false, &E0{ID: eid}
+			var failure error = &E0{ID: eid}
+			if (eid+f.ID+len(f.sc.Opts))%2 == 0 {
+				// the usual validation idiom: a multierror with a single entry — still the converter's own error value
+				failure = multierror.Append(nil, failure)
+			}
+			if f.sc.errVals == nil {
+				f.sc.errVals = map[int]error{}
+			}
+			f.sc.errVals[eid] = failure
+			return outs, false, failure
 		}
 	}
 	if f.Script == "identity" {
@@ -994,8 +1005,12 @@ func (sc *scenario) classifyErr(err error) string {
 		if e0 == nil {
 			return "e0 typednil"
 		}
-		if d, ok := err.(*E0); !ok || d != e0 {
-			// the converter's error value must come back as it is, not wrapped
+		if want, known := sc.errVals[e0.ID]; known {
+			// the very value the function body returned must come back (not wrapped, not unwrapped)
+			if err != want {
+				return fmt.Sprintf("other:not-the-returned-error-value-e0-%d", e0.ID)
+			}
+		} else if d, ok := err.(*E0); !ok || d != e0 {
 			return fmt.Sprintf("other:wrapped-e0-%d", e0.ID)
 		}
 		return fmt.Sprintf("e0 %d", e0.ID)
